@@ -17,6 +17,7 @@ import Driver.C12
 import Driver.C18
 import Driver.Sched
 import Driver.C09
+import Driver.C20
 
 open Corerad
 
@@ -33,7 +34,8 @@ def handlers : List (String × (List String → List String → Option Verdict))
   ("mon", Driver.C18.mon),
   ("sch6", Driver.Sched.sch6), ("sch7", Driver.Sched.sch7),
   ("adv6", Driver.Sched.adv6), ("adv7", Driver.Sched.adv7), ("adv9", Driver.Sched.adv7),
-  ("lst", Driver.C09.lst)
+  ("lst", Driver.C09.lst),
+  ("bt", Driver.C20.bt), ("sv", Driver.C20.sv)
 ]
 
 def runLine (line : String) : String :=
